@@ -1002,7 +1002,7 @@ func toDataPointGroups(in []*autogen.DataPointGroup) ([]*message.DataPointGroup,
 
 func toDataPointGroup(in *autogen.DataPointGroup) (*message.DataPointGroup, error) {
 	if in == nil {
-		return &message.DataPointGroup{}, nil
+		return nil, errors.Errorf("data_point_group is null : %w", errors.ErrMalformedMessage)
 	}
 	dataIDOrAlias, err := toDataIDOrAlias(in.DataIdOrAlias)
 	if err != nil {
